@@ -14,12 +14,14 @@ Proof. exact (list_eqb_spec _ N_eqb_spec). Qed.
 
 Lemma term_eqb_spec : forall a b, reflect (a = b) (term_eqb a b).
 Proof.
-  intros [x|x|x|m k|x] [y|y|y|m' k'|y]; simpl; try (constructor; congruence).
+  intros [x|x|x|m k|x|l x|x] [y|y|y|m' k'|y|l' y|y]; simpl; try (constructor; congruence).
   - destruct (str_eqb_spec x y); constructor; congruence.
   - destruct (str_eqb_spec x y); constructor; congruence.
   - destruct (Z.eqb_spec x y); constructor; congruence.
   - destruct (Z.eqb_spec m m'), (N.eqb_spec k k'); simpl; constructor; congruence.
   - destruct (str_eqb_spec x y); constructor; congruence.
+  - destruct (str_eqb_spec l l'), (str_eqb_spec x y); simpl; constructor; congruence.
+  - destruct (Bool.eqb_spec x y); constructor; congruence.
 Qed.
 
 Lemma sol_eqb_spec : forall a b, reflect (a = b) (sol_eqb a b).
@@ -73,12 +75,49 @@ Proof.
   lia.
 Qed.
 
+Lemma lex2_asym p q : lex2 p q = true -> lex2 q p = false.
+Proof.
+  unfold lex2. destruct (str_lt (fst p) (fst q)) eqn:E1.
+  - intros _. now rewrite (str_lt_asym _ _ E1).
+  - destruct (str_lt (fst q) (fst p)) eqn:E2; [discriminate|]. apply str_lt_asym.
+Qed.
+
+Lemma lex2_ntrans p q r : lex2 p r = true -> lex2 p q = true \/ lex2 q r = true.
+Proof.
+  unfold lex2.
+  destruct (str_lt (fst p) (fst r)) eqn:E1.
+  - intros _. destruct (str_lt_ntrans _ (fst q) _ E1) as [H|H]; rewrite H; auto.
+  - destruct (str_lt (fst r) (fst p)) eqn:E2; [discriminate|]. intros H.
+    destruct (str_lt (fst p) (fst q)) eqn:E3; auto.
+    destruct (str_lt (fst q) (fst r)) eqn:E4; auto.
+    destruct (str_lt (fst q) (fst p)) eqn:E5.
+    { destruct (str_lt_ntrans _ (fst r) _ E5); congruence. }
+    destruct (str_lt (fst r) (fst q)) eqn:E6.
+    { destruct (str_lt_ntrans _ (fst p) _ E6); congruence. }
+    now apply str_lt_ntrans.
+Qed.
+
+Lemma same_rank_asym x y : same_rank_lt x y = true -> same_rank_lt y x = false.
+Proof.
+  destruct x as [x|x|x|m k|x|l x|x], y as [y|y|y|m' k'|y|l' y|y]; simpl; auto;
+    try apply str_lt_asym; try apply num_lt_asym; try apply lex2_asym.
+  destruct x, y; simpl; auto.
+Qed.
+
+Lemma same_rank_ntrans x y z : rank (Some x) = rank (Some y) -> rank (Some y) = rank (Some z) ->
+  same_rank_lt x z = true -> same_rank_lt x y = true \/ same_rank_lt y z = true.
+Proof.
+  destruct x as [x|x|x|m k|x|l x|x], y as [y|y|y|m' k'|y|l' y|y], z as [z|z|z|m'' k''|z|l'' z|z];
+    simpl; intros R1 R2; try discriminate; auto;
+    try apply str_lt_ntrans; try apply num_lt_ntrans; try apply lex2_ntrans.
+  destruct x, y, z; simpl; auto.
+Qed.
+
 Lemma klt_asym a b : klt a b = true -> klt b a = false.
 Proof.
   unfold klt.
   destruct (N.ltb_spec (rank a) (rank b)), (N.ltb_spec (rank b) (rank a)); try lia; auto; try discriminate.
-  destruct a as [[x|x|x|m k|x]|], b as [[y|y|y|m' k'|y]|]; simpl in *; try lia; try discriminate; auto;
-    try apply str_lt_asym; try apply num_lt_asym.
+  destruct a as [x|], b as [y|]; auto. apply same_rank_asym.
 Qed.
 
 Lemma klt_ntrans a b c : klt a c = true -> klt a b = true \/ klt b c = true.
@@ -87,9 +126,11 @@ Proof.
   destruct (N.ltb_spec (rank a) (rank c)), (N.ltb_spec (rank c) (rank a)),
            (N.ltb_spec (rank a) (rank b)), (N.ltb_spec (rank b) (rank a)),
            (N.ltb_spec (rank b) (rank c)), (N.ltb_spec (rank c) (rank b)); try lia; auto; try discriminate.
-  destruct a as [[x|x|x|m k|x]|], b as [[y|y|y|m' k'|y]|], c as [[z|z|z|m'' k''|z]|];
-    simpl in *; try lia; try discriminate; auto;
-    try apply str_lt_ntrans; try apply num_lt_ntrans.
+  destruct a as [x|], b as [y|], c as [z|]; try discriminate; auto;
+    try (simpl in *; destruct x; simpl in *; lia);
+    try (simpl in *; destruct y; simpl in *; lia);
+    try (simpl in *; destruct z; simpl in *; lia).
+  apply same_rank_ntrans; lia.
 Qed.
 
 Lemma klt_irrefl a : klt a a = false.
